@@ -1357,3 +1357,19 @@ package lisp
 //@   assert-at opProgn [the-body-is-sequenced-in-the-new-scope] arg0 == ret("newEnvN", 0) && arg1 == args
 //@   assert-at return~return_opProgn [the-value-of-the-body-is-the-result] arg0 == ret("opProgn", 0)
 //@   property C01
+
+// in-package: a package that did not exist is created and starts with the
+// exports of the language package -- copied by UsePackage (whose contract says:
+// exactly the exported bindings), not by any other route; an existing package
+// is entered without being re-seeded.
+//@ func builtinInPackage
+//@   requires rtOK(env) && argsOK(args, 1) && env.Runtime.Registry != nil
+//@   ghost    nuse : int
+//@   counts   nuse UsePackage
+//@   ghost    ndef : int
+//@   counts   ndef DefinePackage
+//@   assert-at DefinePackage [a-package-is-created-only-when-the-name-is-unknown] arg1 == old(args.Cells[0].Str) && env.Runtime.Registry.packages[arg1] == nil
+//@   assert-at UsePackage [the-new-package-is-current-and-it-is-the-language-package-that-is-used] arg0 == env && arg1 != nil && arg1.Str == env.Runtime.Registry.Lang && ndef == old(ndef) + 1
+//@   ensures  [a-new-package-is-seeded-through-use-package-exactly-once] ndef > old(ndef) && result.Type != LError && env.Runtime.Registry.Lang != "" ==> nuse == old(nuse) + 1
+//@   ensures  [an-existing-package-is-entered-without-being-re-seeded] ndef == old(ndef) ==> nuse == old(nuse)
+//@   property C08
